@@ -28,6 +28,11 @@ Fixpoint hex_decode_aux (fuel : nat) (s : list N) : option bytes :=
   end.
 Definition hex_decode (s : list N) : option bytes := hex_decode_aux (length s) s.
 
+(* encoding/hex EncodeToString (lower case), for stating what a well-formed depositor string is *)
+Definition hexdigit (n : N) : N := if n <? 10 then 48 + n else 87 + n.
+Fixpoint hex_encode (b : bytes) : list N :=
+  match b with [] => [] | x :: t => hexdigit (x / 16) :: hexdigit (x mod 16) :: hex_encode t end.
+
 (* the two format strings with the placeholders filled in
    "14%v7508%v7576a914%v8763ac6776a914%v8804%vb175ac68"
    "14%v7520%v7508%v7576a914%v8763ac6776a914%v8804%vb175ac68" *)
@@ -70,6 +75,44 @@ Definition spend_allowed (wpkh rpkh lock : bytes) (pkh : bytes) (sig_good : bool
            (tx_locktime sequence : N) : bool :=
   sig_good && (bytes_eqb pkh wpkh
                || (bytes_eqb pkh rpkh && lock_standard lock && refund_open lock tx_locktime sequence)).
+
+(* ---- statement-level vocabulary: the engine on a spend of the deposit script ---- *)
+Section Spend.
+  Variable hash160 sha256 : bytes -> bytes.
+  Variable der_strict : bytes -> bool.
+  Variable checksig : bytes -> bytes -> sighash -> bool.
+
+  (* the signature-check context of the spend: the digest commits to the deposit script itself *)
+  Definition spend_ctx (w : wrap) (tx : tx_skel) (i : nat) (amount : Z) (d : dep) : ctx :=
+    {| c_tx := tx; c_idx := i; c_amount := amount; c_ver := wrap_ver w;
+       c_code := ser (deposit_ops d) |}.
+
+  (* txscript.NewEngine(pkScript, tx, i, StandardVerifyFlags, amount).Execute() where pkScript is
+     the P2SH / P2WSH script of the deposit script and input i carries (signature element, public
+     key, deposit script) as scriptSig pushes resp. as witness stack *)
+  Definition engine_on_deposit (w : wrap) (tx : tx_skel) (i : nat) (amount : Z) (d : dep)
+             (sig pk : bytes) : vres :=
+    let script := ser (deposit_ops d) in
+    match w with
+    | WP2SH => verify_input hash160 sha256 der_strict checksig tx i
+                            (deposit_script_sig sig pk script) [] (ser (p2sh (hash160 script))) amount
+    | WP2WSH => verify_input hash160 sha256 der_strict checksig tx i
+                             [] (deposit_witness sig pk script) (ser (p2wsh (sha256 script))) amount
+    end.
+
+  (* OP_CHECKSIG would accept (pk, sig) in that context: hash type, strict DER / low S, key
+     encoding and the ECDSA check against the digest of (tx, i, deposit script, amount) *)
+  Definition sig_good (w : wrap) (tx : tx_skel) (i : nat) (amount : Z) (d : dep) (sig pk : bytes) : bool :=
+    sig_accept der_strict checksig (spend_ctx w tx i amount d) pk sig.
+End Spend.
+
+(* nSequence of the spending input *)
+Definition input_sequence (tx : tx_skel) (i : nat) : N :=
+  match nth_error (tx_ins tx) i with Some x => ti_seq x | None => max_seq end.
+
+(* two deposits with the same spend conditions (key hashes and refund locktime) *)
+Definition same_conditions (d d' : dep) : Prop :=
+  dp_wpkh d = dp_wpkh d' /\ dp_rpkh d = dp_rpkh d' /\ dp_lock d = dp_lock d'.
 
 (* ------------------------------------------------------------------ correspondence cases *)
 Record spend := {
@@ -119,17 +162,22 @@ Module Concrete.
                  (checksig script s) (sp_tx s) (sp_idx s) (sp_script_sig s) (sp_witness s)
                  (pk_script c script (sp_wrap s)) (sp_amount s).
 
+  (* the offered (key, signature element) pair passes OP_CHECKSIG, from the Go-side observations *)
+  Definition good_of (s : spend) : bool :=
+    sp_valid s && sp_der_ok s && hashtype_ok (ht_of s)
+    && pk_enc_ok (wrap_ver (sp_wrap s)) (sp_pk s)
+    && negb (bytes_eqb (sp_sig s) []).
+  Definition seq_of (s : spend) : N :=
+    match nth_error (tx_ins (sp_tx s)) (sp_idx s) with Some i => ti_seq i | None => max_seq end.
+
   (* the property on the implementation's outputs: the engine's verdict on the implementation's
      script, per spend *)
   Definition spec_spend (c : dep_case) (s : spend) : bool :=
     if sp_neutral s then true else
     let d := dc_in c in
     let pkh := table_fn (dc_hash160 c) (sp_pk s) in
-    let sequence := match nth_error (tx_ins (sp_tx s)) (sp_idx s) with
-                    | Some i => ti_seq i | None => max_seq end in
-    let good := sp_valid s && sp_der_ok s && hashtype_ok (ht_of s)
-                && pk_enc_ok (wrap_ver (sp_wrap s)) (sp_pk s)
-                && negb (bytes_eqb (sp_sig s) []) in
+    let sequence := seq_of s in
+    let good := good_of s in
     if negb good then negb (sp_engine s)                         (* no valid signature: rejected *)
     else if bytes_eqb pkh (di_wpkh d) then sp_engine s           (* wallet key: any time *)
     else if bytes_eqb pkh (di_rpkh d) then
